@@ -254,6 +254,17 @@ def handlers : HandlerShape := {
   stateNoneGuard := false
   convCatch := [("sdr list", ["CompletionCodeError"]), ("sdr show", ["ValueError"]), ("sdr showall", ["ValueError"])] }
 
+/-- FROZEN: the printing handlers after the repairs of the first audit round (commit 9e975ea: 45221a9, 33a26cf,
+02a3660 and b88fd9b - `sensor_value()` catches `(ValueError, ArithmeticError)`), as `Gen.Cli.handlers` was
+generated from that tree.  Subject of `Props.C20.nonlinear_afterRound1_counterexample`: the DecodingError that
+`lin` raises for a non-linear sensor (70h..7Fh) was still not caught. -/
+def handlersAfterRound1 : HandlerShape := {
+  linkNoneGuard := true
+  idStringGuard := true
+  entityGuard := true
+  stateNoneGuard := true
+  convCatch := [("sdr list", ["ArithmeticError", "CompletionCodeError", "ValueError"]), ("sdr show", ["ArithmeticError", "ValueError"]), ("sdr showall", ["ArithmeticError", "ValueError"])] }
+
 /-- `SdrCommon.from_data`: record type ↦ (class sets `device_id_string`, class sets `entity_id`) -/
 def sdrClasses : List (Nat × Bool × Bool) := [/- SdrFullSensorRecord -/ (0x01, true, true), /- SdrCompactSensorRecord -/ (0x02, true, true), /- SdrEventOnlySensorRecord -/ (0x03, true, true), /- SdrFruDeviceLocator -/ (0x11, true, true), /- SdrManagementControllerDeviceLocator -/ (0x12, true, true), /- SdrManagementControllerConfirmationRecord -/ (0x13, false, false), /- SdrOEMSensorRecord -/ (0xc0, false, false)]
 /-- every other record type: SdrUnknownSensorRecord -/
